@@ -272,3 +272,18 @@ Section HistoryInterp.
     interpolate leb logf spline1 pchip1 tiny (s_fmin s) (s_fmax s) (s_every s) (s_inp s)
                 (s_req s) fdata.
 End HistoryInterp.
+
+(* ------------------------------------------------------------------ *)
+(* The sine / cosine choice of the DLF transform (empymod check_time)  *)
+(* ------------------------------------------------------------------ *)
+(* A function of the instance's OWN setting: its signal and the 'kind' its own
+   ftarg carries (if any) -- not of any other instance created from the same
+   user dictionary. *)
+Inductive trig : Type := Sin | Cos.
+
+Definition dlf_kind (signal : Z) (user_kind : option trig) : trig :=
+  if Z.ltb 0 signal then Sin
+  else if Z.ltb signal 0 then Cos
+  else match user_kind with Some k => k | None => Sin end.
+
+Definition trig_code (k : trig) : Z := match k with Sin => 0%Z | Cos => 1%Z end.
